@@ -137,8 +137,8 @@ class VecV:
     def __repr__(s): return f'Vec{list(s.ents)}'
 class IterV:
     """eagerly materialised iterator: ents like VecV (values may be RefV for by-reference iteration)"""
-    __slots__ = ('ents', 'kind')
-    def __init__(s, ents, kind='iter'): s.ents = tuple(ents); s.kind = kind
+    __slots__ = ('ents', 'kind', 'endless')
+    def __init__(s, ents, kind='iter'): s.ents = tuple(ents); s.kind = kind; s.endless = False      # endless: a finite prefix of a generator that never ends by itself
     def is_dense(s): return all(g is True for g, _ in s.ents)
 class RangeV(Agg):
     pass
